@@ -21,19 +21,23 @@
      specials are exactly the literal ones) is decided on every run by the implementation-side
      oracle of harness/src/bin/c01.rs (literal text erased, remainder checked), and by the
      sink-level statements (B) below.
-   * The theorems hold for a world guarded by `guard_bodies`: the VM marks the body operand of
-     RenderBodyComponent safe whatever it is (interpreter.rs:158), which is sound only because
-     the compiler always emits Capture ... EndCapture in front of it. For arbitrary instruction
-     sequences the unguarded statement is FALSE of the model: C01_body_mint_needs_capture is the
-     witness. Without RenderBodyComponent no guard is needed
-     (C01_no_raw_data_without_body_components); on compiler output the guard never fires (checked
-     on every real chunk by Corr/CorrC01.v: guarded and unguarded runs must agree with the engine).
+   * The VM marks the body operand of RenderBodyComponent safe whatever it is (interpreter.rs:158),
+     which is sound only because the compiler always emits Capture ... EndCapture in front of it.
+     For arbitrary instruction sequences the unconditional statement is FALSE of the model:
+     C01_body_mint_needs_capture is the witness. The theorems therefore carry the DECIDABLE
+     chunk-level side condition `bodies_from_capture c` (Model/CapCheck.v: an abstract
+     interpretation of the value stack and the loop stack against a table, in the style of the C07
+     validator, whose only refusal is a RenderBodyComponent whose body slot is not known to have
+     been pushed by EndCapture / a component result / super() / a flagged constant). It is
+     evaluated on EVERY real chunk in the correspondence run (Corr/CorrC01.v); compiled code
+     satisfies it, a compiler that skips the capture (seeded change S46) does not.
+     C01_body_operand_is_minted states what the condition gives at that instruction.
    * "No use of safe" is the hypothesis on w_filter / w_function: what they return, after the VM
      applied their is_safe flag, contains no dirty flagged string when their inputs contain none.
      The `safe` filter violates it by design.
    * Floats: Value::format of an f64 is an oracle `fp` assumed to print clean text. *)
-From TeraV Require Import Model.Value Model.Instr Model.Slice Model.VFormat Model.VM Model.World0 Model.Taint
-     Model.WorldC01 Gen.Tables Gen.SafeTables Proofs.AutoescapeProofs.
+From TeraV Require Import Model.Value Model.Instr Model.Slice Model.VFormat Model.VM Model.World0 Model.StackCheck
+     Model.CapCheck Model.Taint Model.WorldC01 Gen.Tables Gen.SafeTables Proofs.AutoescapeProofs.
 Local Open Scope nat_scope.
 
 (* ---------- tables re-extracted from the source ---------- *)
@@ -68,12 +72,26 @@ Theorem C01_safe_flag_invariant :
   world_ok wd ok ae ->
   (forall w t w', wr w t = Some w' -> Wok w -> clean ok t = true -> Wok w') ->
   forall fuel tpl depth ch ip s o,
-  tpl_okP wd ok ae tpl -> chunk_okP wd ok ch -> SInv wd ok s -> OInv W ok Wok o ->
+  tpl_okP ok ae tpl ->
+  chunk_okP ok ch ->                      (* chunk_ok ok ch = true /\ bodies_from_capture ch = true *)
+  cmatch (the_table ch) ip s ->           (* the state is one the checked table allows at ip (any state at ip = 0) *)
+  SInv ok s -> OInv W ok Wok o ->
   match run W wr wd fuel tpl ae depth ch ip s o with
-  | RDone s' o' => SInv wd ok s' /\ OInv W ok Wok o'
+  | RDone s' o' => SInv ok s' /\ OInv W ok Wok o'
   | _ => True
   end.
 Proof. exact run_inv. Qed.
+
+(* at a RenderBodyComponent of a checked chunk the slot under the kwargs holds a flagged string:
+   mark_safe changes nothing there, the body is clean by the invariant *)
+Theorem C01_body_operand_is_minted : forall ch ip n s kw b rest,
+  bodies_from_capture ch = true -> nth_error ch ip = Some (RenderBodyComponent n) ->
+  cmatch (the_table ch) ip s -> stack s = kw :: b :: rest -> exists x, b = VStr x true.
+Proof. exact body_operand_flagged. Qed.
+
+(* every state matches the entry of a checked chunk *)
+Theorem C01_any_state_enters : forall c s, bodies_from_capture c = true -> cmatch (the_table c) 0 s.
+Proof. intros c s H. exact (cmatch_entry c (the_table c) s H). Qed.
 
 Theorem C01_no_raw_data_when_autoescape_on :
   forall (wd : world) (fp : spec_float -> str),
@@ -93,14 +111,16 @@ Theorem C01_no_raw_data_when_autoescape_on :
   (forall n d ch, assoc_get (w_components wd) n = Some (d, ch) ->
       forall k b c, w_build_ctx wd d k b = ROk c -> kw_ok ok_html k = true ->
       obody_ok ok_html b = true -> ctx_ok ok_html c = true) ->
-  (* every chunk that can run: clean literal text, no dirty flagged constant; every template autoescaped *)
-  (forall n d c, assoc_get (w_components wd) n = Some (d, c) -> chunk_ok ok_html c = true) ->
-  (forall n t, assoc_get (w_templates wd) n = Some t -> tpl_ok ok_html t = true) ->
+  (* every chunk that can run: clean literal text, no dirty flagged constant, bodies minted; every
+     template autoescaped *)
+  (forall n d c, assoc_get (w_components wd) n = Some (d, c) ->
+      chunk_ok ok_html c = true /\ bodies_from_capture c = true) ->
+  (forall n t, assoc_get (w_templates wd) n = Some t -> tpl_ok ok_html t = true /\ tpl_bodies_ok t = true) ->
   forall fuel tpl block c g,
-  tpl_ok ok_html tpl = true ->
+  tpl_ok ok_html tpl = true -> tpl_bodies_ok tpl = true ->
   (* the data: arbitrary, as long as no string ALREADY flagged safe by the Rust API is dirty *)
   ctx_ok ok_html c = true -> ctx_ok ok_html g = true ->
-  match render_to str wr_str (guard_bodies ok_html wd) fuel tpl block c g [] with
+  match render_to str wr_str wd fuel tpl block c g [] with
   | RDone _ (SinkTop out) => clean ok_html out = true
   | _ => True
   end.
@@ -122,51 +142,28 @@ Theorem C01_render_component_clean :
   (forall n d ch, assoc_get (w_components wd) n = Some (d, ch) ->
       forall k b c, w_build_ctx wd d k b = ROk c -> kw_ok ok_html k = true ->
       obody_ok ok_html b = true -> ctx_ok ok_html c = true) ->
-  (forall n d c, assoc_get (w_components wd) n = Some (d, c) -> chunk_ok ok_html c = true) ->
-  (forall n t, assoc_get (w_templates wd) n = Some t -> tpl_chunks_ok ok_html t = true) ->
+  (forall n d c, assoc_get (w_components wd) n = Some (d, c) ->
+      chunk_ok ok_html c = true /\ bodies_from_capture c = true) ->
+  (forall n t, assoc_get (w_templates wd) n = Some t -> tpl_chunks_ok ok_html t = true /\ tpl_bodies_ok t = true) ->
   forall fuel tpl cchunk cctx,
-  tpl_chunks_ok ok_html tpl = true -> chunk_ok ok_html cchunk = true -> ctx_ok ok_html cctx = true ->
-  match run str wr_str (guard_bodies ok_html wd) fuel tpl (Some true) 0 cchunk 0 (new_state cctx) (SinkTop []) with
+  tpl_chunks_ok ok_html tpl = true -> tpl_bodies_ok tpl = true ->
+  chunk_ok ok_html cchunk = true -> bodies_from_capture cchunk = true -> ctx_ok ok_html cctx = true ->
+  match run str wr_str wd fuel tpl (Some true) 0 cchunk 0 (new_state cctx) (SinkTop []) with
   | RDone _ (SinkTop out) => clean ok_html out = true
   | _ => True
   end.
 Proof. exact render_component_clean. Qed.
 
-Theorem C01_no_raw_data_without_body_components :
-  forall (wd : world) (fp : spec_float -> str),
-  w_escape wd = escape_html -> w_format wd = format_with fp -> (forall f, clean ok_html (fp f) = true) ->
-  (forall n v k sc r sf, w_filter wd n v k sc = Some (ROk r, sf) ->
-      vok ok_html v = true -> kw_ok ok_html k = true -> scope_ok ok_html sc = true ->
-      vok ok_html (if sf then mark_safe r else r) = true) ->
-  (forall n k sc r sf, w_function wd n k sc = Some (ROk r, sf) ->
-      kw_ok ok_html k = true -> scope_ok ok_html sc = true -> vok ok_html (if sf then mark_safe r else r) = true) ->
-  (forall i a b c, w_math wd i a b = ROk c -> vok ok_html a = true -> vok ok_html b = true -> vok ok_html c = true) ->
-  (forall a c, w_negate wd a = ROk c -> vok ok_html a = true -> vok ok_html c = true) ->
-  (forall m k x, w_map_get wd m k = Some x -> kw_ok ok_html m = true -> vok ok_html x = true) ->
-  (forall v a x, w_get_attr wd v a = Some x -> vok ok_html v = true -> vok ok_html x = true) ->
-  (forall n d ch, assoc_get (w_components wd) n = Some (d, ch) ->
-      forall k b c, w_build_ctx wd d k b = ROk c -> kw_ok ok_html k = true ->
-      obody_ok ok_html b = true -> ctx_ok ok_html c = true) ->
-  (forall n d c, assoc_get (w_components wd) n = Some (d, c) -> chunk_ok ok_html c = true) ->
-  (forall n t, assoc_get (w_templates wd) n = Some t -> tpl_ok ok_html t = true /\ tpl_has_body_comp t = false) ->
-  (forall n d c, assoc_get (w_components wd) n = Some (d, c) -> has_body_comp c = false) ->
-  forall fuel tpl block c g,
-  tpl_ok ok_html tpl = true -> tpl_has_body_comp tpl = false -> ctx_ok ok_html c = true -> ctx_ok ok_html g = true ->
-  match render_to str wr_str wd fuel tpl block c g [] with
-  | RDone _ (SinkTop out) => clean ok_html out = true
-  | _ => True
-  end.
-Proof. exact no_raw_data_without_body_components. Qed.
-
-(* the unguarded statement is false for instruction sequences the compiler never emits *)
+(* the unconditional statement is false for instruction sequences the compiler never emits: every
+   hypothesis but bodies_from_capture holds and the raw poison comes out; the check refuses this
+   chunk and accepts the compiled form of the same call *)
 Theorem C01_body_mint_needs_capture :
   tpl_ok ok_html bad_tpl = true /\ ctx_ok ok_html [(s_p, VStr poison0 false)] = true /\
   render_to str wr_str (world1 false fp_placeholder [(s_p, bad_tpl)] bad_comps) 50 bad_tpl None
             [(s_p, VStr poison0 false)] [] []
   = RDone (new_state_with_global [(s_p, VStr poison0 false)] []) (SinkTop poison0) /\
   clean ok_html poison0 = false /\
-  render_to str wr_str (guard_bodies ok_html (world1 false fp_placeholder [(s_p, bad_tpl)] bad_comps)) 50 bad_tpl None
-            [(s_p, VStr poison0 false)] [] [] = RFail ErrRender.
+  bodies_from_capture bad_chunk = false /\ bodies_from_capture good_chunk = true.
 Proof. exact body_mint_needs_capture. Qed.
 
 (* the world used by the correspondence (default/upper/length/escape_html filters, real component
@@ -275,7 +272,7 @@ Print Assumptions C01_autoescape_flag_by_suffix.
 (* ---------- non-vacuity ---------- *)
 
 (* {% set s %}[{{ p }}]{% endset %}{{ s }}|{{ s[1:3] }}|{{ p }}  with p = the six specials, as the real
-   compiler emits it (fused WritePath), in the guarded world1: hypotheses hold, output is escaped once *)
+   compiler emits it (fused WritePath), in world1: hypotheses hold, output is escaped once *)
 Definition ex_chunk : list instr :=
   [Capture; WriteText [91]%N; WritePath [s_p]; WriteText [93]%N; EndCapture; SetI [115]%N;
    WritePath [[115]%N]; WriteText [124]%N;
@@ -284,11 +281,12 @@ Definition ex_chunk : list instr :=
 Definition ex_tpl : template :=
   {| t_name := s_p; t_chunk := ex_chunk; t_root_chunk := ex_chunk; t_lineage := []; t_autoescape := true |}.
 
-Example C01_ex_hypotheses : tpl_ok ok_html ex_tpl = true /\ ctx_ok ok_html [(s_p, VStr poison0 false)] = true.
-Proof. vm_compute. split; reflexivity. Qed.
+Example C01_ex_hypotheses :
+  tpl_ok ok_html ex_tpl = true /\ tpl_bodies_ok ex_tpl = true /\ ctx_ok ok_html [(s_p, VStr poison0 false)] = true.
+Proof. vm_compute. repeat split; reflexivity. Qed.
 
 Example C01_ex_render :
-  match render_to str wr_str (guard_bodies ok_html (world1 false fp_placeholder [(s_p, ex_tpl)] [])) 200 ex_tpl None
+  match render_to str wr_str (world1 false fp_placeholder [(s_p, ex_tpl)] []) 200 ex_tpl None
                   [(s_p, VStr poison0 false)] [] [] with
   | RDone _ (SinkTop out) =>
       clean ok_html out = true /\
